@@ -1,10 +1,17 @@
 (** Property C11 — join() means finished; after stop() nothing runs and every worker exits;
     start()/stop() are idempotent.  Statements only.  Same quantification as Props/C09.v.
 
-    Not proved here (see level_note): "stop() always returns" is a termination claim; the model
-    proves what stop() has achieved when it returns, the implementation-side oracle checks that
-    it returns under every explored schedule (the scheduler detects deadlock exactly). *)
-From JR Require Import Pool PoolBase PoolInvDefs PoolSafety PoolLifecycle.
+    "stop() always returns" is a termination claim.  Proved here is its safety half, for every
+    reachable state of every schedule: the pool never deadlocks (C11_stop_never_blocked,
+    C11_stop_no_deadlock, C11_thread_progress_worker, C11_thread_progress_client): inside stop() the controlling thread can always
+    take a step, or the holder of the lock / queue mutex it waits for can; the only waits of stop()
+    that are not bounded by the pool itself are thread.join(3) (which times out) on a worker that,
+    by C11_thread_progress_worker, can itself always make progress, and clear()'s queue.join(),
+    which finds nothing left to wait for.  What remains of the claim is fair scheduling and the
+    termination of the task bodies (a body that never returns keeps its worker, and stop(), for
+    ever: outside the statement).  The implementation-side oracle checks that stop() returns under
+    every explored schedule (the scheduler detects deadlock exactly). *)
+From JR Require Import Pool PoolBase PoolInvDefs PoolInvE PoolInvH PoolSafety PoolLifecycle PoolGrowth PoolProgress.
 
 (** the two join monitors never fire: join() never returned True while a task enqueued before
     the call was neither done nor dropped by stop(); it never returned False unless it was
@@ -54,3 +61,48 @@ Theorem C11_return_changes_no_pool_state : forall s c,
   next_w s' = next_w s /\ next_task s' = next_task s.
 Proof. exact cret_pool_unchanged. Qed.
 Print Assumptions C11_return_changes_no_pool_state.
+
+(** [progress s t]: thread t can take a step, or the holder of the pool lock can, or the holder of the queue
+    mutex can ([can_step s u] = some [step s u fire] is defined; fire = the thread's own timeout expires) *)
+
+(** stop() is never blocked by the pool *)
+Theorem C11_stop_never_blocked : forall mx mn progs sched,
+  valid_cfg mx mn ->
+  let s := run sched (init mx mn progs) in
+  stop_region (ctl s) = true -> progress s (TC 0%nat).
+Proof. exact reachable_stop_never_blocked. Qed.
+Print Assumptions C11_stop_never_blocked.
+
+Theorem C11_stop_no_deadlock : forall mx mn progs sched,
+  valid_cfg mx mn ->
+  let s := run sched (init mx mn progs) in
+  stop_region (ctl s) = true -> exists u f s', step s u f = Some s'.
+Proof. exact stop_no_deadlock. Qed.
+Print Assumptions C11_stop_no_deadlock.
+
+(** every started worker that has not exited makes progress (towards the exit stop() waits for) *)
+Theorem C11_thread_progress_worker : forall mx mn progs sched,
+  valid_cfg mx mn ->
+  let s := run sched (init mx mn progs) in
+  forall w, alive (ws s w) = true -> wpc (ws s w) <> WNew -> progress s (TW w).
+Proof. exact reachable_worker_progress. Qed.
+Print Assumptions C11_thread_progress_worker.
+
+(** every call of every client makes progress; the only exception is the client's own untimed join()
+    while work is outstanding (it waits for the workers, see C11_join_on_running_pool_not_stuck) *)
+Theorem C11_thread_progress_client : forall mx mn progs sched,
+  valid_cfg mx mn ->
+  let s := run sched (init mx mn progs) in
+  forall c, cpc (cs s c) <> CDone -> (cpc (cs s c) = CJQJoin JOp /\ 0 < unfinished s) \/ progress s (TC c).
+Proof. exact reachable_client_progress. Qed.
+Print Assumptions C11_thread_progress_client.
+
+(** join() on a running pool at rest with work outstanding: some thread (a worker, or the creator of a
+    worker that is not started yet) can take a step *)
+Theorem C11_join_on_running_pool_not_stuck : forall mx mn progs sched,
+  valid_cfg mx mn ->
+  let s := run sched (init mx mn progs) in
+  start_done s = true -> (forall c, ewin (cpc (cs s c)) = false) -> 0 < unfinished s ->
+  exists u f s', step s u f = Some s'.
+Proof. exact join_on_running_pool_not_stuck. Qed.
+Print Assumptions C11_join_on_running_pool_not_stuck.
